@@ -10,3 +10,108 @@ T.register("C02", __name__, T.h_hist, {"mode": "c02"}, _HIST, lemma="M2", name_p
                 "repeat with an added unmentioned key + permuted top-level order run no cached body and no effect; effects run "
                 "once per body run, last, with the dataset's value; a cached evaluation never runs more bodies than an uncached one",
            bounds="history [o_a, o_a', o_b, o_a]; o_b = o_a perturbed in one slot; stub S1")
+
+
+# ---------------------------------------------------------------------------------------------------------
+from labrea import Option, dataset
+
+from engine.api import harness
+from engine.hutil import note, outcome, quiet, untraced
+from engine.refsem import same
+
+FALSY = [None, 0, False, "", [], {}, 7]
+
+
+@harness("C02", lemma="falsy-values", cubes={"vi": list(range(len(FALSY)))}, stubs=("S1",), example=dict(vi=0, a=1, b=1), timeout=300,
+         bounds="a diamond top(left(shared), right(shared)) whose shared dataset returns None / 0 / False / '' / [] / {} / 7 and has "
+                "an effect; evaluated on o1, o1 again, o2 (A equal or different); stub S1",
+         what="whatever value a body returns (None and every falsy value included) it is stored: the shared dependency runs once per "
+              "evaluation, the repeat runs nothing and no effect, and o2 reruns only if A differs")
+def falsy_values(vi: int, a: int, b: int) -> int:
+    runs, effs = [], []
+    val = FALSY[vi]
+    with untraced():
+        def shared(x=Option("A")):
+            runs.append("shared")
+            return val
+
+        sh = dataset(shared, effects=[lambda v: effs.append(v)])
+
+        def left(s=sh):
+            runs.append("left")
+            return ("left", s)
+
+        def right(s=sh):
+            runs.append("right")
+            return ("right", s)
+
+        l, r = dataset(left), dataset(right)
+
+        def top(p=l, q=r):
+            runs.append("top")
+            return (p, q)
+
+        t = dataset(top)
+    exp = (("left", val), ("right", val))
+    with quiet():
+        g1 = outcome(lambda: t({"A": a}))
+        n1, e1 = list(runs), len(effs)
+        g2 = outcome(lambda: t({"A": a, "UNUSED": 1}))
+        n2, e2 = list(runs), len(effs)
+        g3 = outcome(lambda: t({"A": b}))
+        n3 = list(runs)
+    note("value", val, "runs after 1st", n1, "after repeat", n2, "after third", n3, "effects", effs)
+    for g in (g1, g2, g3):
+        if g[0] != "ok" or not same(g[1], exp):
+            return 0
+    if sorted(n1) != ["left", "right", "shared", "top"] or e1 != 1:
+        return 0                    # the shared dependency ran once for two consumers, its effect once
+    if n2 != n1 or e2 != e1:
+        return 0                    # the repeat (plus an unmentioned key) ran nothing
+    if a == b:
+        if n3 != n2:
+            return 0
+    elif n3.count("shared") != 2:
+        return 0
+    return 2
+
+
+@harness("C02", lemma="overridden-preset", cubes={"form": [0, 1, 2]}, stubs=("S1",), example=dict(form=0, a=1, x1=2, x2=3, y=4), timeout=300,
+         bounds="a cached consumer of a dataset whose option S.X is forced (decorator options=, with_options, or a WithOptions wrapper "
+                "around it) while the caller also passes S.X; two evaluations that differ ONLY in the caller's (overridden) S.X; stub S1",
+         what="an option that a pre-set value fully overrides is not something the result depends on: the second evaluation returns "
+              "the stored value and runs no body")
+def overridden_preset(form: int, a: int, x1: int, x2: int, y: int) -> int:
+    from labrea import WithOptions
+
+    runs = []
+    with untraced():
+        def inner(sx=Option("S.X"), sy=Option("S.Y", 0)):
+            runs.append("inner")
+            return ("inner", sx, sy)
+
+        if form == 0:
+            inn = dataset(inner, options={"S": {"X": 1}})
+        elif form == 1:
+            inn = dataset(inner).with_options({"S": {"X": 1}})
+        else:
+            inn = WithOptions(dataset(inner), {"S": {"X": 1}})
+
+        def outer(i=inn, av=Option("A")):
+            runs.append("outer")
+            return ("outer", i, av)
+
+        out = dataset(outer)
+    o1 = {"A": a, "S": {"X": x1, "Y": y}}
+    o2 = {"A": a, "S": {"X": x2, "Y": y}}
+    exp = ("outer", ("inner", 1, y), a)
+    with quiet():
+        g1 = outcome(lambda: out(o1))
+        n1 = list(runs)
+        g2 = outcome(lambda: out(o2))
+    note("o1", o1, "o2", o2, "runs after first", n1, "after second", runs)
+    if g1[0] != "ok" or g2[0] != "ok" or not same(g1[1], exp) or not same(g2[1], exp):
+        return 0
+    if runs != n1:
+        return 0
+    return 2
